@@ -19,7 +19,8 @@ RULE_TEXT = ("C04-F format tables of every Response impl, read from path summari
              "execute and generated arms; write_char only gets ASCII literals; shipped Write impls append or fail."
              " C04-K: the buffer discipline of process (rules K1-K7 of C07) - a unit is handed to run once."
              " C04-W (write_fmt): the formatted pieces go to the writer itself or through alloc's growable `format`; no intermediate container with a capacity of its own lies between the value and the writer."
-             " C04-T/D: an undefined header selects no handler - trie language and dispatcher arms of the witness interfaces (rules C01-T/D).")
+             " C04-T/D: an undefined header selects no handler - trie language and dispatcher arms of the witness interfaces (rules C01-T/D)."
+             " C04-C01W: an unknown mnemonic leaves the header parser with UndefinedHeader (walk rule C01-W).")
 
 W = "microscpi::response::Write::"
 WR = "microscpi::response::Response::write_response"
